@@ -37,7 +37,7 @@ ASSUMPTIONS = [
 CHUNK = 1
 
 BACKENDS = ["sv", "svnoise", "mps", "dmrg", "mpsnoisy"]
-MODES = ["per_observable", "default", "mixed", "default_then_own"]
+MODES = ["per_observable", "default", "mixed", "default_then_own", "rerun"]
 
 
 def _dts(T, tier):
@@ -125,6 +125,8 @@ def run_case(case):
         label = f"T={T} dt={dt} backend={be} mode={mode} eval={list(ev)}"
         want = {}
         ckw = {}
+        if mode == "rerun" and (second or len(ev) != 2):
+            continue
         if mode == "default_then_own":
             if second or len(first) < 2:
                 continue
@@ -148,17 +150,29 @@ def run_case(case):
             with contextlib.redirect_stdout(io.StringIO()):
                 if mod is sv:
                     cfg = sv.SVConfig(dt=dt, krylov_tolerance=1e-10, observables=obs, log_level=logging.CRITICAL, gpu=False, **ckw)
-                    res = sv.SVBackend(seq, config=cfg).run()
+                    backend = sv.SVBackend(seq, config=cfg)
+                    res = backend.run()
+                    reruns = [backend.run(), sv.SVBackend(seq, config=cfg).run()] if mode == "rerun" else []
                 else:
                     if be == "dmrg":
                         ckw["solver"] = m.Solver.DMRG
                     cfg = m.MPSConfig(dt=dt, precision=1e-9, observables=obs, log_level=logging.CRITICAL, num_gpus_to_use=0, optimize_qubit_ordering=False, **ckw)
                     with seams.module_random(impl_mod, seams.ScriptedRandom(default_uniform=1e-9, default_choice=0)):
-                        res = m.MPSBackend(seq, config=cfg).run()
+                        backend = m.MPSBackend(seq, config=cfg)
+                        res = backend.run()
+                        reruns = [backend.run(), m.MPSBackend(seq, config=cfg).run()] if mode == "rerun" else []
         except Exception as e:
             return result(False, sig=f"raises|{be}|{type(e).__name__}", msg=f"{label}: run raised {type(e).__name__}: {str(e)[:300]}", outcome="raise", states=states + 1, transitions=transitions + 1)
         states += 1
-        transitions += 1
+        transitions += 1 + len(reruns)
+        # the same backend object run again, and a new backend on the same config object: identical results (no state carried between runs)
+        for k, r2 in enumerate(reruns):
+            for tag in want:
+                t1, t2 = list(res.get_result_times(tag)), list(r2.get_result_times(tag))
+                v1 = [np.real(runner.to_np(res.get_result(tag, t))).astype(float) for t in t1]
+                v2 = [np.real(runner.to_np(r2.get_result(tag, t))).astype(float) for t in t2]
+                if t1 != t2 or any(np.abs(a - b).max() > 1e-12 for a, b in zip(v1, v2)):
+                    return result(False, sig=f"rerun|{be}|{tag}", msg=f"{label}: {'second run() of the same backend' if k == 0 else 'new backend on the same config object'} gives {tag} at {t2} = {[np.round(v, 8).tolist() for v in v2]}, first run gave {t1} = {[np.round(v, 8).tolist() for v in v1]}", outcome="rerun", states=states, transitions=transitions)
         allev = sorted(set(first) | set(second))
         ref = None
         if be != "dmrg":
